@@ -40,30 +40,40 @@ namespace occa {
     memoryPoolRing.removeRef(memPool);
   }
 
-  void modeMemoryPool_t::addModeMemoryRef(modeMemory_t *mem) {
-    modeMemoryRing.addRef(mem);
-    /*Find how much of this mem is a new reservation*/
-    dim_t lo = (mem->offset / alignment) * alignment; //Round down to alignment
-    dim_t hi = ((mem->offset + mem->size + alignment - 1)
-                / alignment) * alignment; //Round up
+  udim_t modeMemoryPool_t::uncoveredBytes(const modeMemory_t *mem) const {
+    /*
+    Bytes of the aligned range of mem which are not covered by the aligned
+    range of any (other) reservation. Reservations are sorted by offset,
+    so their aligned lower limits are non-decreasing.
+    */
+    const dim_t lo = (mem->offset / alignment) * alignment; //Round down to alignment
+    const dim_t hi = ((mem->offset + mem->size + alignment - 1)
+                      / alignment) * alignment; //Round up
+    dim_t covered = lo; /*[lo, covered) has been accounted for*/
+    dim_t uncovered = 0;
     for (modeMemory_t* m : reservations) {
+      if (m == mem) continue;
       const dim_t mlo = (m->offset / alignment) * alignment;
       const dim_t mhi = ((m->offset + m->size + alignment - 1)
                         / alignment) * alignment;
       if (mlo >= hi) break;
-      if (mhi <= lo) continue;
+      if (mhi <= covered) continue;
 
-      if (mlo <= lo && mhi >= hi) {
-        hi = lo;
-      } else {
-        hi = std::min(hi, mhi);
-        lo = std::max(lo, mlo);
-      }
-      if (lo == hi) break;
+      if (mlo > covered) uncovered += mlo - covered;
+      covered = mhi;
+      if (covered >= hi) break;
     }
+    if (covered < hi) uncovered += hi - covered;
+    return uncovered;
+  }
+
+  void modeMemoryPool_t::addModeMemoryRef(modeMemory_t *mem) {
+    modeMemoryRing.addRef(mem);
+    /*Find how much of this mem is a new reservation*/
+    const udim_t newBytes = uncoveredBytes(mem);
     /*Add this mem to the reservation list*/
     reservations.emplace(mem);
-    reserved += hi-lo;
+    reserved += newBytes;
   }
 
   void modeMemoryPool_t::removeModeMemoryRef(modeMemory_t *mem) {
@@ -74,25 +84,7 @@ namespace occa {
     reservations.erase(pos);
 
     /*Find how much of this mem is removed from reserved space*/
-    dim_t lo = (mem->offset / alignment) * alignment; //Round down to alignment
-    dim_t hi = ((mem->offset + mem->size + alignment - 1)
-                / alignment) * alignment; //Round up
-    for (modeMemory_t* m : reservations) {
-      const dim_t mlo = (m->offset / alignment) * alignment;
-      const dim_t mhi = ((m->offset + m->size + alignment - 1)
-                        / alignment) * alignment;
-      if (mlo >= hi) break;
-      if (mhi <= lo) continue;
-
-      if (mlo <= lo && mhi >= hi) {
-        hi = lo;
-      } else {
-        hi = std::min(hi, mhi);
-        lo = std::max(lo, mlo);
-      }
-      if (lo == hi) break;
-    }
-    reserved -= hi-lo;
+    reserved -= uncoveredBytes(mem);
   }
 
   bool modeMemoryPool_t::needsFree() const {
